@@ -19,6 +19,10 @@ CLAIMS = {
          "as C01", "Coq proof + correspondence"),
  "C10": ("Coq theorems C10_get_correct (first pre-order occurrence, no side condition), C10_pattern_components, C10_newest_first; scoping of blocks/arms/function bodies is the lexical threading of the environment in Lang/Sem.v, which C01 proves the generated code to follow. Tie: exhaustive binding structures over two names (pattern shapes up to three leaves, nested to depth 3), each asserting which constant a variable holds.",
          "as C01", "Coq proof + correspondence (exhaustive small binding structures)"),
+ "C11": ("Coq theorems C11_decimal / C11_binary / C11_hex_uint / C11_hex_narrow / C11_hex_bytes / C11_u256_from_str / C11_u256_display / C11_display_parse / C11_no_panic over byte-level models of value.rs and num.rs (per-width decimal parse incl. Rust's str::parse, binary with padding, hex for integers and byte arrays, the 32-byte multiply/divide-by-10 loops), for all strings. Tie: the extracted models vs UIntValue::parse_decimal/parse_binary, Value::parse_hexadecimal, U256 FromStr/Display, integer Display on boundary/random/over-long/empty strings for every width, and text-level acceptance + denoted constant of `let x: uN = LIT;` with separator placements.",
+         "Coq kernel; Rust std's integer parsing is modelled (rust_parse_uint) and tied differentially", "Coq proof (loop invariants on byte arithmetic) + extracted-model correspondence"),
+ "C20": ("Coq theorems C20_line_col_agree (pest's two line/column algorithms agree on every offset of every valid UTF-8 file), C20_render_quotes (the rendered message quotes exactly the lines a..min(b,|lines|) verbatim with consecutive existing numbers, then underline and message), C20_render_no_panic, over a byte-level model of error.rs / pest line_col / str::lines. Tie: model vs RichError Display and Span::to_slice on all boundary offset pairs of small files; direct gate: real error messages of broken, re-laid-out programs are parsed back against the file.",
+         "Coq kernel; pest's Position::line_col / LineIndex and str::lines are modelled from their sources and tied differentially (Span from a pest Pair itself is not reachable from outside: synthetic spans + real messages)", "Coq proof + extracted-model correspondence + direct message check"),
  "C14": ("Part (a): Coq theorems C14_wrapper_neutral and C14_debug_neutral (debug and plain builds evaluate alike on every input); tie: both builds executed on the Bit Machine for generated programs x witnesses. Part (b) (markers resolve to the right call) is not yet decided by this check: partial.",
          "as C01", "Coq proof + differential execution"),
 }
